@@ -387,6 +387,16 @@ func vfTrimStack(st []byte) string {
 // vfEval evaluates one case, updates statistics, and returns the findings that are NOT in the
 // known-findings list (those are counted under excluded_known and the search goes on).
 func vfEval[C any](name string, c C, check func(*vfCtx, C), overwrite bool) []vfFinding {
+	if cur := os.Getenv("VF_CURCASE"); cur != "" {
+		// fatal-crash watch: a stack overflow or another runtime fatal error kills the process and can
+		// not be recovered; the case being evaluated is left on disk for the driver to report.
+		if b, err := json.Marshal(struct {
+			Prop string `json:"prop"`
+			Case C      `json:"case"`
+		}{name, c}); err == nil {
+			_ = os.WriteFile(cur, b, 0o644)
+		}
+	}
 	ctx := vfEvalCtx(c, check)
 	var raw []byte
 	needRaw := ctx.nontrivial || len(ctx.findings) > 0
